@@ -285,6 +285,56 @@ func (w *World) PosToModel(pos string) string {
 	return strings.Join(ss, ",")
 }
 
+// PartPos is one partition's entry of a cursor position text, resolved against the real chunk layout.
+type PartPos struct {
+	Part  int  // partition index
+	Chunk int  // index of the chunk in the partition's chunk list (-1: the id names no existing chunk)
+	Idx   int  // record index inside the chunk, as written in the text
+	Count int  // number of records of that chunk (0 when Chunk < 0)
+	Last  bool // the chunk is the last one of the partition
+}
+
+// ParsePosText splits a cursor position text (`name=pos:name=pos`) into per-partition entries; ok is false for
+// head/tail/empty and for texts that do not parse.
+func (w *World) ParsePosText(pos string) (r []PartPos, ok bool) {
+	switch strings.ToLower(pos) {
+	case "", "head", "tail":
+		return nil, false
+	}
+	for _, kv := range strings.Split(pos, ":") {
+		pr := strings.Split(kv, "=")
+		if len(pr) != 2 {
+			return nil, false
+		}
+		i := w.bySrc(pr[0])
+		jp, err := journal.ParsePos(pr[1])
+		if i < 0 || err != nil {
+			return nil, false
+		}
+		pp := PartPos{Part: i, Chunk: -1, Idx: int(jp.Idx)}
+		cks := w.Parts[i].chunks(w.Ctx)
+		for k, c := range cks {
+			if c.Id() == jp.CId {
+				pp.Chunk, pp.Count, pp.Last = k, int(c.Count()), k == len(cks)-1
+			}
+		}
+		r = append(r, pp)
+	}
+	sort.Slice(r, func(a, b int) bool { return r[a].Part < r[b].Part })
+	return r, true
+}
+
+// Locate gives the chunk index and the index inside that chunk of the seq-th record of partition i.
+func (w *World) Locate(i, seq int) (chunkIdx, idx int, ok bool) {
+	for k, n := range w.Counts(i) {
+		if seq < n {
+			return k, seq, true
+		}
+		seq -= n
+	}
+	return 0, 0, false
+}
+
 // PosText builds a cursor position text from per-partition positions given in the model's vocabulary.
 func (w *World) PosText(m map[int][2]int) string {
 	var keys []int
